@@ -65,6 +65,9 @@ class C15(PropBase):
         while minbr * w < txdl * 8:
             minbr += 1
         br = rng.choice([minbr, minbr, minbr + 1, 2 * minbr, 3 * minbr + 7, 10 * minbr, 100 * minbr])
+        if rng.random() < 0.05:
+            # just below one full frame per window: must be refused at construction (a frame that fills the CAN frame could never leave)
+            br = max(1, math.floor((txdl * 8 - rng.choice([1, 4, 7])) / w))
         params['rate_limit_enable'] = enabled
         # N_Bs either far away, or just above the longest gap the schedule can put between a First Frame and the next Flow Control
         # (one tick, at most 3 windows): a frame parked by the limiter must not use up the flow-control deadline
